@@ -153,12 +153,6 @@ pub open spec fn requirements_met(signed: Seq<Seq<u8>>, h: QMap, always: Seq<Seq
     &&& forall|i: int, k: Seq<u8>| 0 <= i < prefixes.len() && #[trigger] h.contains_key(k) && lower(#[trigger] prefixes[i]).is_prefix_of(k) ==> signed.contains(k)
 }
 
-/// `trim_ascii` / `trim_ascii_start` / `trim_ascii_end` (canonical.rs, copied from std, slice patterns are outside Verus's subset):
-/// NOT extracted; contract assumed here and checked by the bounded Kani harness trim_ascii_bounded (inputs up to 6 bytes).
-#[verifier::external_body]
-pub fn trim_ascii(bytes: &[u8]) -> (r: &[u8])
-    ensures r@ == trim_ws(bytes@)
-{ unimplemented!() }
 
 impl AuthParams {
     pub open spec fn signed(&self) -> Seq<Seq<u8>> { vals_bytes(self.signed_headers@) }
